@@ -88,6 +88,7 @@ var hostileExprs = []string{"nilstr", "str", "boom", "boomp", "rec", "recv.Next"
 	"*ps", "*a", "&a", "<-a", "a.b.c", "s[0]", "s[1:2]", "xs[1:0]", "xs[-1:]", "xs[0:9]", "xs[:2:1]", "arr[0:1]", "len(a)", "len()", "len(s, s)", "cap(m)", "int(s)", "int8(u64)", "string(xs)", "string(boom)",
 	"print(boom)", "printf(s, boom)", "println(nilstr)", "isNull(a)", "isNull(nilptr)", "bytes(a)", "runes(s)", "duration(s)", "float64(s)", "true ? f() : 1", "t && f()", "nope.x", "1i", "1i + 1", "nil == nil", "nil.x", "nil()", "(nil)",
 	"9223372036854775808", "0x", "1e999", "1e-999 * 0", "'\\xff'", "\"\\xff\"", "`\xf0`", "a[nil]", "a[s]", "xs[s]", "xs[1.5]", "m[1]", "m[nil]", "st[0]", "st['A']", "f.x", "f[0]", "e().x",
+	"&nope", "&nilptr.A", "&f()", "&e()", "&xs[9]", "&(nope)", "&a.b", "*nope", "-nope", "!nope", "^nope", "<-nope", "&&a", "-e()", "!f()", "&m.absent", "&st.c",
 	"nanmap", "nan32", "nanany", "nanarr", "nanc", "nanst", "ptrmap", "boolmap", "nanmap[nan]", "nanmap[1]", "nanany[nan]", "nanany.k", "len(nanmap)", "nanmap == nanmap", "nan == nan", "nanany[nanmap]", "mm", "ptrmap[nilptr]", "boolmap[t]", "inf / inf", "int(nan)", "int64(inf)", "uint8(nan)", "string(nan)", "duration(inf)"}
 
 // C08: loading, parsing and rendering never panic.
